@@ -37,6 +37,10 @@ Proof.
           | apply preserves_decompose_switching_map ].
 Qed.
 
+(* every operation eval_node computes itself is in the proved set *)
+Lemma computed_ops_proved : forall o, from_tape o = false -> proved_op o = true.
+Proof. intros o H. destruct o; try reflexivity; discriminate H. Qed.
+
 (* ------------------------------------------------------------------ graphs *)
 (* the dependency-type lookup eval_graph_nodes performs *)
 Definition lookup_ty (tys : list ty) (n : nat) (id : Z) : result ty :=
